@@ -98,6 +98,17 @@ fn script_err(kind: &str, which: &str) -> BoxError {
             "io_interrupted" => Box::new(std::io::Error::new(std::io::ErrorKind::Interrupted, "interrupted")),
             "io_wouldblock" => Box::new(std::io::Error::new(std::io::ErrorKind::WouldBlock, "would block")),
             "io_reset" => Box::new(std::io::Error::new(std::io::ErrorKind::ConnectionReset, "reset")),
+            // errors a provider typically propagates with `?`: the crate's own key error, std parse/format errors, a message
+            "own_keytoolong" => {
+                use std::str::FromStr;
+                match scratchstack_aws_signature::KSecretKey::<4>::from_str("much too long for four bytes") {
+                    Err(e) => Box::new(e),
+                    Ok(_) => Box::new(ForeignError),
+                }
+            }
+            "fmt" => Box::new(std::fmt::Error),
+            "parse_int" => Box::new("x".parse::<i32>().unwrap_err()),
+            "message" => "key store unavailable".into(),
             _ => Box::new(ForeignError),
         }
     }
@@ -667,7 +678,18 @@ fn run_staged<S: SignedHeaderRequirements>(
         }
         Ok(Ok((c, _p, _b))) => c,
     };
-    let render_canon = if crate::leak::active() { format!("{:?}", creq) } else { String::new() };
+    // (Debug renderings of the code under test are code under test: a panic in one is an outcome, not a crash)
+    let render_canon = if crate::leak::active() {
+        match guarded(|| format!("{:?}", creq)) {
+            Ok(s) => s,
+            Err(p) => {
+                evs.push(stage_err("StageCanon", Err(&p), blank_canon));
+                return evs;
+            }
+        }
+    } else {
+        String::new()
+    };
     evs.push(stage_ok(
         "StageCanon",
         json!({"render": render_canon, "cpath": jbytes(creq.canonical_path().as_bytes()),
@@ -687,7 +709,17 @@ fn run_staged<S: SignedHeaderRequirements>(
         Ok(Ok(ap)) => ap,
     };
     let signed = ap.signed_headers.clone();
-    let render_params = if crate::leak::active() { format!("{:?}", ap) } else { String::new() };
+    let render_params = if crate::leak::active() {
+        match guarded(|| format!("{:?}", ap)) {
+            Ok(s) => s,
+            Err(p) => {
+                evs.push(stage_err("StageParams", Err(&p), blank_params));
+                return evs;
+            }
+        }
+    } else {
+        String::new()
+    };
     evs.push(stage_ok(
         "StageParams",
         json!({"render": render_params, "cred": jbytes(ap.builder.get_credential().unwrap_or("").as_bytes()),
@@ -717,7 +749,18 @@ fn run_staged<S: SignedHeaderRequirements>(
         }
     };
     oracle.sha_hex(&creq_bytes);
-    evs.push(stage_ok("StageAuth", json!({"render": if crate::leak::active() { format!("{:?}", auth) } else { String::new() }, "inst": instant_json(auth.request_timestamp().with_timezone(&Utc)), "creq": jbytes(&creq_bytes)})));
+    let render_auth = if crate::leak::active() {
+        match guarded(|| format!("{:?}", auth)) {
+            Ok(s) => s,
+            Err(p) => {
+                evs.push(stage_err("StageAuth", Err(&p), blank_auth));
+                return evs;
+            }
+        }
+    } else {
+        String::new()
+    };
+    evs.push(stage_ok("StageAuth", json!({"render": render_auth, "inst": instant_json(auth.request_timestamp().with_timezone(&Utc)), "creq": jbytes(&creq_bytes)})));
     match guarded(|| auth.prevalidate(&region, &service, now, Duration::minutes(15))) {
         Err(p) => {
             evs.push(stage_err("StagePre", Err(&p), json!({})));
@@ -958,6 +1001,9 @@ pub fn threads_main(cases_path: &str, out_path: &str, nthreads: usize, rounds: u
     let cases = Arc::new(cases);
     let results: Arc<Mutex<Vec<Value>>> = Arc::new(Mutex::new(Vec::new()));
     let pid = std::process::id();
+    if std::env::var("VERIF_LOG").map(|v| v == "trace").unwrap_or(false) {
+        crate::leak::start_discard();
+    }
     for round in 0..rounds {
         let barrier = Arc::new(std::sync::Barrier::new(nthreads));
         let mut hs = Vec::new();
